@@ -4,6 +4,31 @@ import json
 ALL = ["C%02d" % i for i in range(1, 21)]
 OPS_NOTE = "Trusted: Lean kernel; extractor (syntactic); harness generators/comparator; go-openapi/spec JSON loading; swag.ToGoName and jsonreference decoding supplied as tables by the real libraries (external functions of the model)."
 MIX_NOTE = "Trusted: Lean kernel; extractor (syntactic); harness generators/comparator; go-openapi/spec JSON loading. Documents are in the spec model's serialization normal form; the warnings theorem assumes distinct keys per object and well-typed info/contact/license; generator keeps ids unique per document (hypothesis of C18)."
+FL_NOTE = "Trusted: Lean kernel and the Lean runtime executing the validators; the harness (bundle generator, child-process runner, byte comparisons); tables of external functions supplied by the real libraries ($ref resolution relative to a document, canonical $ref spelling, strfmt registry); go-openapi/spec loading/expansion is exercised, not modelled. Not proved: that the Flatten pipeline issues only meaning-preserving rewrites for every bundle of W - established per explored bundle by the validator."
+def fl(cat, technique, text, ref):
+    return dict(cat=cat, technique=technique, text=text, note=FL_NOTE, ref=ref)
+FLAT = {
+ "C01": fl("translation_validation", "translation validation: Lean-verified certificate checker (bisimulation of $ref-unfolded documents, soundness theorem cert_sound) run on every (input bundle, Flatten output) of the exploration; candidate relation computed by an untrusted Lean search",
+   "Per explored bundle of W and option set: a bisimulation between the $ref-unfolded input bundle and output document (all top-level parts except the shared sections; every pre-existing definition under its own name; shared parameters/responses when kept) is computed and accepted by checkCert, whose soundness (accepted relation => equal unfoldings at every depth, i.e. same possibly infinite trees, x-go-gen-location ignored) is proved in Lean for all bundles. Partial: the universal statement over the pipeline is validated per run, not proved.", "§7 C01"),
+ "C02": fl("translation_validation", "translation validation: Lean validator over the output (every $ref, found by a generic walk, is the canonical #/definitions/<name> of a present definition and sits on a schema position of the Spec traversal of C11) on every explored bundle",
+   "Per explored bundle (Minimal and full, with/without RemoveUnused, KeepNames on single documents): the Lean check nonCanonical finds no $ref outside schema positions and none that is not the canonical spelling of a definition present in the document. C11's theorems make 'seen by the analyzer' and 'present in the document' coincide.", "§7 C02"),
+ "C03": fl("translation_validation", "translation validation: Lean validator (no complex schema, per the proved classification model of C20, at a schema position that is neither a $ref nor a top-level definition body) + Go-side case-insensitive comparison of created vs pre-existing names; meaning of pre-existing definitions via C01's certificate",
+   "Per explored bundle under full flattening: inlineComplex (Spec positions of C12 x classification model of C20) is empty, created names differ from every pre-existing name up to case, and old definitions keep their meaning (C01).", "§7 C03"),
+ "C04": fl("translation_validation", "exploration of W with every Flatten call certified: error value, plus the validators of C01-C03 on the result",
+   "Per explored bundle and option set: Flatten returns nil and the result passes the C01, C02 and C03 validators. Partial: totality of the pipeline on W is explored, not proved.", "§7 C04"),
+ "C05": fl("translation_validation", "translation validation: Lean validators (remaining $refs canonical and local; none at all when the Lean cycle detector finds no $ref cycle in the bundle) + C01 certificate + byte comparison of repeated runs",
+   "Per explored bundle under Expand: every remaining $ref is the canonical reference of a present definition, the certificate of C01 is accepted, and for bundles without $ref cycle the output has no $ref and repeated runs (also from JSON with permuted key order) are byte-identical.", "§7 C05"),
+ "C06": fl("translation_validation", "translation validation: Lean validators on the output (shared sections empty, every definition referred to, no dangling $ref) + C01 certificate, on every explored bundle incl. names needing pointer/URL escaping and chains that become unused",
+   "Per explored bundle with RemoveUnused: parameters/responses sections are empty, each remaining definition is the target of some $ref, no $ref dangles, and operations keep their meaning (C01).", "§7 C06"),
+ "C07": fl("exploration", "exploration: each bundle flattened repeatedly in fresh processes' loads (3 repeats quick) and from JSON re-serialised with permuted key order; byte comparison",
+   "Per explored bundle (Minimal/full; Expand only when the Lean cycle detector finds no cycle): all repeats and permuted-key loads give byte-identical output. Partial: Go map iteration order is sampled, not enumerated.", "§7 C07"),
+ "C08": fl("exploration", "exploration: second Flatten with the same options on every successful Minimal/full output; byte comparison",
+   "Per explored bundle: flattening the output again succeeds and leaves it byte-identical.", "§7 C08"),
+ "C09": fl("fault_enumeration", "fault enumeration: for every bundle and every k up to the number of document loads of the fault-free run, the k-th load fails (counting PathLoader); every call in a killable child process (hang/crash/panic detection); termination theorems for the modelled loops (C20)",
+   "Per explored bundle: Flatten neither panics, crashes nor exceeds the time limit, and when any single document load fails it returns an error instead of success. Partial: crashes inside libraries and wall-clock hangs are explored, not proved.", "§7 C09"),
+ "C10": fl("exploration", "exploration: after every successful Flatten, the digest of every public query on the analyzer that was passed in is compared with that of a fresh analysis of the rewritten document",
+   "Per explored bundle and option set: every public getter of the passed-in Spec (and its private indexes through the verif dump) answers as analysis.New on the rewritten document does.", "§7 C10"),
+}
 AN_NOTE = "Trusted: Lean kernel; extractor (syntactic); harness generators/comparator; go-openapi/spec JSON loading; $ref strings pre-normalised by jsonreference (opaque to the model). WF: tokens on the way to indexed positions are not \"\", \".\", \"..\"; header names need no pointer escaping; non-body parameters carry no schema."
 checks = {
  "C11": dict(cat="proof", technique="Lean 4 theorems: the model of analyzer.go's walk (string keys built with path.Join / jsonpointer.Escape) yields, per kind and for the all-view, a permutation of the (pointer, $ref) pairs of a generic token-space traversal of the document; string lemmas about path.Clean/Join and escaping proved for all strings; differential correspondence on every index incl. private maps",
@@ -40,6 +65,7 @@ checks = {
    note="Trusted: Lean kernel; extractor (syntactic); harness generators/comparator; go-openapi/spec JSON loading. The model works on documents in the spec model's serialization normal form.",
    ref="§7 C19"),
 }
+checks.update(FLAT)
 m = {
  "version": 1,
  "setup_cmd": "cd /verif && ./setup.sh",
